@@ -407,8 +407,11 @@ pub fn gen_str<W: Write>(w: &mut W, tier: &str, seed: u64) {
         emit(w, "K", &format!("OP spc {}", d));
         emit(w, "K", &format!("OP string {} T41", d));
     }
-    for c in ['A', 'é', '日', '😀', '\u{7fff}', '\u{8000}', '\u{10000}', '\u{10ffff}'] {
+    // ASC: the code of the FIRST character; beyond the Integer range the result is a Single
+    for c in ['A', 'é', '日', '😀', '\u{7fff}', '\u{8000}', '\u{8001}', '\u{8a9e}', '\u{9999}', '\u{d55c}', '\u{d7ff}', '\u{e000}', '\u{fffd}', '\u{ffff}', '\u{10000}', '\u{10ffff}', '\u{0}', '\u{7f}', '\u{80}', '\u{ff}', '\u{100}'] {
         emit(w, "K", &format!("OP asc T{}", hex(&c.to_string())));
+        emit(w, "K", &format!("OP asc T{}", hex(&format!("{}xyz", c))));
+        emit(w, "K", &format!("OP asc T{}", hex(&format!("{}{}", c, c))));
     }
     // VAL / Val::from(&str) on numeric spellings
     let nums = ["", "0", "12", "-12", "+5", " 42 ", "1.5", ".5", "5.", "1e3", "1E3", "1d3", "1D-2", "1e", "1e+", "&H1F", "&h1f", "&17", "&8", "&H", "&HFFFF", "&H7FFF", "&H-1", "&-7",
